@@ -6,6 +6,7 @@ from . import hist
 from . import lim
 from . import cmpeng
 from . import grid
+from . import conv
 
 HIST_PROPS = set(hist.PROPS)
 
@@ -13,7 +14,7 @@ HIST_PROPS = set(hist.PROPS)
 def check(prop, tier):
     t0 = time.time()
     verdict = C.Verdict(prop)
-    if prop in HIST_PROPS:
+    if prop in HIST_PROPS and prop not in SIMPLE:
         n, info = hist.run_check(prop, tier, verdict)
         if info is None:
             return 2
@@ -78,7 +79,29 @@ class _C18:
         return n1 + n2, info
 
 
+class _C13:
+    """twin differential (hist) + converting inputs + archetypes (conv)"""
+    @staticmethod
+    def run_check(prop, tier, verdict):
+        n1, cinfo = conv.run_check(prop, tier, verdict)
+        if cinfo is None:
+            return None, None
+        n2, info = hist.run_check(prop, tier, verdict)
+        if info is None:
+            return None, None
+        cov = info["cov"]
+        cov.update(cinfo["cov"])
+        cov["twin_evaluations"] = cov["evaluations"]
+        cov["evaluations"] += cinfo["cov"]["conv_evaluations"] + cinfo["cov"]["archetype_probes"]
+        cov["distinct_nontrivial"] += cinfo["cov"]["archetype_nontrivial"]
+        cov["samples"] = cov["samples"][:3] + cinfo["cov"]["conv_samples"][:2] + cinfo["cov"]["archetype_samples"][:2]
+        return n1 + n2, info
+
+
 SIMPLE = {
+    "C13": (_C13, "exploration", ["twin differential: g++ 12 -std=gnu++17 ASan+UBSan; conversions: g++ (C++17, C++20) and clang++ (C++14, C++20) with ASan+UBSan; archetypes: g++ -fsyntax-only",
+                                  "floating-point sources are restricted to values whose conversion is defined (no UB in the oracle); bool sources are not generated (std::vector<bool> is not a contiguous source)",
+                                  "whether a converting call must compile is decided by std::vector<To> accepting the same call"]),
     "C18": (_C18, "fault_enumeration", ["static half: g++ (quick) / g++ and clang++ (thorough) over the listed standards; the documented conditions (README.md:301-488) are re-implemented independently in vlib/grid.py",
                                         "run-time half: for operations whose noexcept-specification is false every fault must reach the caller (std::terminate is intercepted); for operations whose specification is true the counting run must see no eligible throw point; this is a search over explored states, not a proof over all paths",
                                         "availability of allocator_traits::is_always_equal is read from the standard feature-test macro per (compiler, standard)"]),
@@ -114,7 +137,7 @@ def setup():
     if exe is None:
         print("BUILD-ERROR " + err)
         return 2
-    for mod in (lim, cmpeng):
+    for mod in (lim, cmpeng):  # conv and grid build lazily (cached per tree)
         exes, err = mod.build()
         if exes is None:
             print("BUILD-ERROR " + err)
@@ -127,6 +150,7 @@ def claimed():
     for p in sorted(HIST_PROPS):
         out[p] = "fault" if p in ("C05", "C06") else "hist"
     out["C12"] = "lim"
+    out["C13"] = "hist+conv"
     out["C16"] = "cmp"
     out["C18"] = "grid+fault"
     out["C19"] = "grid"
